@@ -407,3 +407,58 @@ def finish(ctx, level_text=""):
         ctx.prop, "OK" if rc == 0 else "FAIL", ctx.tier, time.time() - ctx.t0,
         cov["evaluations"], proof["discharged"], proof["obligations"]))
     return rc
+
+
+# ----------------------------------------------------------------------------- stateless layers
+
+def _run_one(binary, layer, lines, timeout):
+    try:
+        p = subprocess.run([binary, layer], input=("\n".join(lines) + "\n").encode(), capture_output=True, timeout=timeout)
+        return p.returncode, p.stdout.decode("utf8", "replace").splitlines(), p.stderr.decode("utf8", "replace")
+    except subprocess.TimeoutExpired as ex:
+        out = (ex.stdout or b"").decode("utf8", "replace").splitlines()
+        return 124, out, "timeout"
+
+
+def run_stateless(binary, layer, lines, timeout=600, per_case_timeout=20):
+    """Run independent one-line cases (one output line each), sharded over the cores.
+    A case that kills the process (stack overflow, abort) or hangs is reported as
+    'CRASH rc=<n>' / 'HANG' and the remaining cases are still run."""
+    import concurrent.futures as cf
+    n = max(1, min(NCPU, len(lines) // 50 + 1))
+    chunks = [lines[i::n] for i in range(n)]
+
+    def work(chunk):
+        outs = []
+        pos = 0
+        while pos < len(chunk):
+            rest = chunk[pos:]
+            rc, o, err = _run_one(binary, layer, rest, timeout)
+            if rc == 0 and len(o) == len(rest):
+                outs.extend(o)
+                break
+            # the case after the last answered one is the culprit
+            outs.extend(o[:len(rest)])
+            k = len(o)
+            if k >= len(rest):
+                break
+            if rc == 124:
+                # find out whether this very case hangs
+                rc1, o1, _ = _run_one(binary, layer, [rest[k]], per_case_timeout)
+                if rc1 == 0 and len(o1) == 1:
+                    outs.append(o1[0])
+                else:
+                    outs.append("HANG" if rc1 == 124 else "CRASH rc=%s" % rc1)
+            else:
+                outs.append("CRASH rc=%s %s" % (rc, err.strip().splitlines()[-1][:120] if err.strip() else ""))
+            pos += k + 1
+            pos = len(outs)
+        return outs
+
+    with cf.ThreadPoolExecutor(max_workers=n) as ex:
+        res = list(ex.map(work, chunks))
+    out = [None] * len(lines)
+    for i, r in enumerate(res):
+        for j, x in enumerate(r):
+            out[i + j * n] = x
+    return out
